@@ -2,6 +2,7 @@ import CMacVerif.Model.Morton
 import CMacVerif.Model.Shells
 import CMacVerif.Model.AMRTree
 import CMacVerif.Model.Cartesian
+import CMacVerif.Model.Buckets
 import CMacVerif.Inst.Float
 import CMacVerif.Util.Bits
 open CMacVerif CMacVerif.Util
@@ -92,7 +93,45 @@ def insertSorted (e : Int × Float) : List (Int × Float) → List (Int × Float
 def sortByCell (l : List (Int × Float)) : List (Int × Float) := l.foldl (fun acc e => insertSorted e acc) []
 end Ca
 
+namespace Pl
+open CMacVerif.Buckets CMacVerif.GridNum
+
+instance : Inhabited (V3 Float) := ⟨⟨0.0, 0.0, 0.0⟩⟩
+
+/-- triples of consecutive tokens as points -/
+def points : List String → List (V3 Float)
+  | x :: y :: z :: r => ⟨flt! x, flt! y, flt! z⟩ :: points r
+  | _ => []
+
+structure Built where
+  g : BGrid Float
+  npts : Nat
+  chk : Nat
+  bad : Bool
+
+/-- the constructor: bucket every point (in index order, `push_back`) -/
+def build (n : Int) (a s : V3 Float) (pts : Array (V3 Float)) : Built :=
+  let nn := n.toNat
+  let init : Array (List Nat) := Array.replicate (nn * nn * nn) []
+  let (bk, chk, bad) := (List.range pts.size).foldl (fun (acc : Array (List Nat) × Nat × Bool) i =>
+    let p := pts[i]!
+    let ix := bucketIndex n p.x a.x s.x
+    let iy := bucketIndex n p.y a.y s.y
+    let iz := bucketIndex n p.z a.z s.z
+    let chk := (acc.2.1 * 31 + ((ix.toNat * 1000 + iy.toNat) * 1000 + iz.toNat)) % 1000000007
+    if ix < 0 ∨ ix ≥ n ∨ iy < 0 ∨ iy ≥ n ∨ iz < 0 ∨ iz ≥ n then (acc.1, chk, true)
+    else
+      let k := ((ix.toNat * nn) + iy.toNat) * nn + iz.toNat
+      (acc.1.modify k (fun l => l ++ [i]), chk, acc.2.2)) (init, 0, false)
+  let bucket : Int → Int → Int → List Nat := fun ix iy iz =>
+    if ix < 0 ∨ ix ≥ n ∨ iy < 0 ∨ iy ≥ n ∨ iz < 0 ∨ iz ≥ n then []
+    else bk[((ix.toNat * nn) + iy.toNat) * nn + iz.toNat]!
+  { g := { anchor := a, cs := cellSides s n, n := n, bucket := bucket, pos := fun i => pts[i]! },
+    npts := pts.size, chk := chk, bad := bad }
+end Pl
+
 structure St where
+  pl : Option Pl.Built := none
   cart : Cartesian.Grid Float := Cartesian.mkGrid ⟨0.0, 0.0, 0.0, 1.0, 1.0, 1.0⟩ ⟨1, 1, 1⟩ false false false
   xtab : Array Float := #[]
   dtab : Array Float := #[]
@@ -190,6 +229,32 @@ def step (st : St) : List String → St × String
       (if g.px || g.py || g.pz then "-periodic" else "") ++ (if wrapped then "" else "")
     let shownS := " ".intercalate ([s!"cart ray {cellS} {Ca.showV r.pos} {js.length} {showF total}"] ++ shown)
     (st, s!"{shownS} #cart-{tag}")
+  | "pl" :: "new" :: npc :: n :: ax :: ay :: az :: sx :: sy :: sz :: rest =>
+    let _ := npc
+    let b := Pl.build (int! n) ⟨flt! ax, flt! ay, flt! az⟩ ⟨flt! sx, flt! sy, flt! sz⟩ (Pl.points rest).toArray
+    if b.bad then ({ st with pl := none }, s!"pl new bucket-out-of-range")
+    else ({ st with pl := some b }, s!"pl new {b.npts} {b.g.n} {b.chk}")
+  | ["pl", "near", qx, qy, qz] =>
+    match st.pl with
+    | none => (st, "pl near no-grid")
+    | some b =>
+      let q : GridNum.V3 Float := ⟨flt! qx, flt! qy, flt! qz⟩
+      let g := b.g
+      let ax := Buckets.anchorIndex q.x g.anchor.x g.cs.x
+      let ay := Buckets.anchorIndex q.y g.anchor.y g.cs.y
+      let az := Buckets.anchorIndex q.z g.anchor.z g.cs.z
+      if ax < 0 ∨ ax ≥ g.n ∨ ay < 0 ∨ ay ≥ g.n ∨ az < 0 ∨ az ≥ g.n then (st, "pl near anchor-out-of-range #pl-out-of-range")
+      else
+      let mx := Shells.setMaxRange ax ay az g.n g.n g.n
+      let fuelR := ((2 * mx.level + 3) ^ 3).toNat
+      let (s, ex) := Buckets.closest g q fuelR (g.n * g.n * g.n + 5).toNat
+      let exS := match ex with | .allBlocks => "all-blocks" | .covered => "covered" | .fuel => "FUEL"
+      let lv := s.idx.level
+      (st, s!"pl near {s.best.idx} {showF s.best.r2} #pl-{exS} #pl-level-{if lv > 3 then 4 else lv}")
+  | "oct" :: "new" :: rest => (st, s!"oct new {(rest.length - 7) / 4}")
+  | ["oct", "ngbs", _, _, _] => (st, "oct ngbs")
+  | ["oct", "sphere", _, _, _, _] => (st, "oct sphere")
+  | ["oct", "closest", _, _, _] => (st, "oct closest")
   | _ => (st, "bad-op")
 
 def main : IO Unit := runDriver step ({} : St)
